@@ -50,8 +50,11 @@ BOUNDS = {
              "unit, offset unit; 12 binary operators + 6 augmented assignments + ** (5 forms x 12 exponent kinds) + 3 unary x "
              "operand variants {same unit, other scale, table pair, other dimension, quantity, bare number/array on either side, "
              "same object twice, offset guards, K/degC guard, logarithmic unit, non-dimensionless exponent}; 45 ufunc configurations x "
-             "out in {none, fresh, other unit, bare ndarray, wrong shape, alias of input 0, alias of input 1}; reduce/accumulate; 17 "
-             "reductions with/without out=; 49 array-function call forms without out=, 17 with out= x 5 out forms, 14 in-place ones "
+             "out in {none, fresh, other unit, bare ndarray, wrong shape, wrong shape in a commensurable other unit, wrong shape in another "
+             "dimension, alias of input 0, alias of input 1}; reduce/accumulate; 23 reductions with/without out= (same out forms); 49 "
+             "array-function call forms without out=, 28 handlers/methods with out= (concatenate, stack, clip, dot/outer/matmul, take, "
+             "around/round, choose, einsum, compress, cumsum, sum) x 7 out forms + out= an int32 slice in another unit (right and wrong "
+             "shape: NumPy refuses the cast or the shape), 14 in-place ones "
              "(sort, copyto, put, putmask, place, fill_diagonal, fill); item assignment 5 index kinds x 12 value kinds + 7 kinds of "
              "values a float buffer refuses; 46 Unit operations x 8 unit pairs; 11 copy routes each followed by in-place edits of "
              "the copy; integer buffers int8/int32/uint16 (convert_to_*, out=, augmented assignment, copies) with symbolic scales on "
@@ -84,7 +87,7 @@ def lib_call(fn, *a, **k):
     r = call(fn, *a, **k)
     if r[0] == "raise" and isinstance(r[1], TypeError):
         m = str(r[1])
-        if "SymReal" in m or "SymBool" in m or "loop of ufunc" in m or "not supported for the input types" in m or "Cannot cast ufunc" in m:
+        if "SymReal" in m or "SymBool" in m or "loop of ufunc" in m or "not supported for the input types" in m or ("Cannot cast ufunc" in m and "dtype('O')" in m):
             raise Unsupported("object-dtype refusal: " + m[:160])
     if r[0] == "raise" and isinstance(r[1], KeyError) and "ufunc 'real'" in str(r[1]):
         raise Unsupported("object-dtype artefact: ndarray.real of an object array is a ufunc call")
@@ -683,7 +686,30 @@ UFUNCS = [
     ("multiply@roffset", 2, 1, "num", "xta", {}, "offset temperature"), ("multiply@log", 2, 1, "Np", "xa", {}, "logarithmic unit"),
     ("add@bare", 2, 1, "xa", "bare", {}, "bare operand"), ("multiply@bare", 2, 1, "xa", "bare", {}, None),
 ]
-OUT_FORMS = ["none", "fresh", "otherunit", "bareout", "wrongshape", "alias0", "alias1"]
+OUT_FORMS = ["none", "fresh", "otherunit", "bareout", "wrongshape", "wrongshape_otherunit", "wrongshape_otherdim", "alias0", "alias1"]
+# out= that NumPy itself refuses (wrong shape) while it carries ANOTHER unit than the result: a handler that relabels its target
+# before NumPy has accepted the call leaves the target with its old numbers under a new unit
+_COMMENSURABLE = {"xa": "xb", "xb": "xa", "xta": "xtb", "xtb": "xta", "m": "cm", "cm": "m", "xs": "ks", "K": "degC", "degC": "K",
+                  "Np": "dB", "xd": "percent", "xga": "degree", "degree": "xga", "xtk": "xta"}
+
+
+def out_unit(outform, ua, ub=None):
+    base = ua if ua not in ("num", "bare", None) else ub
+    if outform in ("fresh", "wrongshape"):
+        return base
+    if outform == "bareout":
+        return None
+    if outform == "wrongshape_otherunit":
+        return _COMMENSURABLE.get(base, "xb")
+    if outform == "otherunit":
+        return "xs"
+    if outform == "wrongshape_otherdim":
+        return "xm"
+    raise KeyError(outform)
+
+
+def is_wrongshape(outform):
+    return outform.startswith("wrongshape")
 
 
 def ufunc_case(name, arity, nout, ua, ub, kw, fault, outform, shape):
@@ -691,7 +717,7 @@ def ufunc_case(name, arity, nout, ua, ub, kw, fault, outform, shape):
 
     def h(ctx):
         E = Env(ctx)
-        E.must_return = fault is None and outform != "wrongshape"
+        E.must_return = fault is None and not is_wrongshape(outform)
         E.observe_values = not any(d in ufname for d in DISCONT)
         uf = getattr(np, ufname)
         a = E.operand("a", ua, shape, **(kw if arity == 1 else {}))
@@ -710,8 +736,8 @@ def ufunc_case(name, arity, nout, ua, ub, kw, fault, outform, shape):
                 E.view("o2", "xs", shape)
                 keys.append("o2")
         else:
-            oshape = (3,) if outform == "wrongshape" else (shape if shape != () else (1,))
-            ounit = {"fresh": ua if ua not in ("num", "bare") else ub, "otherunit": "xs", "bareout": None, "wrongshape": ua if ua not in ("num", "bare") else ub}[outform]
+            oshape = (3,) if is_wrongshape(outform) else (shape if shape != () else (1,))
+            ounit = out_unit(outform, ua, ub)
             keys = []
             for j in range(nout):
                 E.view(f"o{j}", ounit, oshape)
@@ -739,9 +765,9 @@ def method_case(tag, f, tw, unit, kw, outform):
             E.copying(lambda: tw(a))
             return
         oshape = (2, 2) if "accumulate" in tag else (2,)
-        if outform == "wrongshape":
+        if is_wrongshape(outform):
             oshape = (3,)
-        E.view("o", {"fresh": unit, "otherunit": "xs", "wrongshape": unit, "bareout": None}[outform], oshape)
+        E.view("o", out_unit(outform, unit), oshape)
         E.inplace("o", lambda: f(a, E.tracked["o"]), lambda: tw(a))
     return Case(_cid("ufunc", tag, f"out={outform}", "offset temperature" if "@offset" in tag else "valid", "shape2x2"), h)
 
@@ -753,7 +779,9 @@ REDUCTIONS = [
     ("sum", lambda a, **k: a.sum(axis=0, **k), True), ("np.sum", lambda a, **k: np.sum(a, axis=0, **k), True),
     ("mean", lambda a, **k: a.mean(axis=0, **k), True), ("min", lambda a, **k: a.min(axis=0, **k), True),
     ("np.max", lambda a, **k: np.max(a, axis=0, **k), True), ("ptp", lambda a, **k: np.ptp(a, axis=0, **k), False),
-("var", lambda a, **k: np.var(a, axis=0, **k), False),
+    ("var", lambda a, **k: np.var(a, axis=0, **k), True),
+    ("np.percentile", lambda a, **k: np.percentile(a, 50, axis=0, **k), True), ("np.quantile", lambda a, **k: np.quantile(a, 0.5, axis=0, **k), True),
+    ("np.median", lambda a, **k: np.median(a, axis=0, **k), True), ("np.nanmax", lambda a, **k: np.nanmax(a, axis=0, **k), True), ("np.mean", lambda a, **k: np.mean(a, axis=0, **k), True),
     ("prod", lambda a, **k: a.prod(axis=0, **k), False), ("np.prod", lambda a, **k: np.prod(a, axis=0, **k), True),
     ("cumsum", lambda a, **k: a.cumsum(axis=0, **k), True), ("np.cumsum", lambda a, **k: np.cumsum(a, axis=0, **k), True),
     ("cumprod", lambda a, **k: np.cumprod(a, axis=0, **k), False), ("median", lambda a, **k: np.median(a, axis=0, **k), False),
@@ -770,9 +798,9 @@ def reduction_case(tag, f, unit, outform):
             E.copying(lambda: f(a))
             return
         oshape = (2, 2) if "cum" in tag else (2,)
-        if outform == "wrongshape":
+        if is_wrongshape(outform):
             oshape = (3,)
-        E.view("o", {"fresh": unit, "otherunit": "xs", "wrongshape": unit, "bareout": None}[outform], oshape)
+        E.view("o", out_unit(outform, unit), oshape)
         E.inplace("o", lambda: f(a, out=E.tracked["o"]), lambda: f(a))
     return Case(_cid("reduce", tag, unit, f"out={outform}", "shape2x2"), h)
 
@@ -852,7 +880,34 @@ FUNCS_OUT = [
     ("choose@dim", lambda a, b, o: np.choose([0, 1], [a, b], out=o), lambda a, b: np.choose([0, 1], [a, b]), "xa", "xs", (2,), (2,), "dimension mismatch"),
     ("einsum", lambda a, b, o: np.einsum("ij->ji", a, out=o), lambda a, b: np.einsum("ij->ji", a), "xa", None, (2, 2), (2, 2), None),
     ("outer", lambda a, b, o: np.outer(a, b, out=o), lambda a, b: np.outer(a, b), "xa", "xs", (2,), (2, 2), None),
+    ("np.round", lambda a, b, o: np.round(a, out=o), lambda a, b: np.round(a), "xa", None, (2,), (2,), None),
+    ("a.round", lambda a, b, o: a.round(out=o), lambda a, b: a.round(), "xa", None, (2,), (2,), None),
+    ("hstack-like concatenate axis=None", lambda a, b, o: np.concatenate([a, b], axis=None, out=o), lambda a, b: np.concatenate([a, b], axis=None), "xa", "xa", (2, 2), (8,), None),
+    ("stack axis=1", lambda a, b, o: np.stack([a, b], axis=1, out=o), lambda a, b: np.stack([a, b], axis=1), "xa", "xa", (2,), (2, 2), None),
+    ("a.clip", lambda a, b, o: a.clip(b[0], b[1], out=o), lambda a, b: a.clip(b[0], b[1]), "xa", "xa", (2,), (2,), "method refused on this tree"),
+    ("einsum product", lambda a, b, o: np.einsum("ij,jk->ik", a, b, out=o), lambda a, b: np.einsum("ij,jk->ik", a, b), "xa", "xs", (2, 2), (2, 2), None),
+    ("a.compress", lambda a, b, o: a.compress([True, True], out=o), lambda a, b: a.compress([True, True]), "xa", None, (2,), (2,), None),
+    ("np.compress", lambda a, b, o: np.compress([True, True], a, out=o), lambda a, b: np.compress([True, True], a), "xa", None, (2,), (2,), None),
+    ("a.cumsum", lambda a, b, o: a.cumsum(out=o), lambda a, b: a.cumsum(), "xa", None, (2,), (2,), None),
+    ("a.sum", lambda a, b, o: a.sum(axis=0, out=o), lambda a, b: a.sum(axis=0), "xa", None, (2, 2), (2,), None),
 ]
+_CONC = {(2,): ([2.0, 3.0], [4.0, 5.0]), (2, 2): ([[2.0, 3.0], [4.0, 5.0]], [[1.0, 2.0], [3.0, 4.0]])}
+
+
+def func_out_typed_case(tag, f, tw, ua, ub, shape, oshape, fault, dtype, wrongshape):
+    """out= is a slice of a larger INTEGER buffer in another unit than the result: NumPy refuses to cast the double result into it
+    (or, for wrongshape, refuses the shape). Concrete doubles with symbolic unit scales: the refusal is NumPy's own in both modes"""
+    def h(ctx):
+        E = _int_env(ctx)
+        E.observe_values = False
+        av, bv = _CONC[shape]
+        a = E.concrete("a", av, ua)
+        b = E.concrete("b", bv, ub) if ub else None
+        osh = (3,) if wrongshape else oshape
+        E.concrete("o", np.arange(11, 11 + int(np.prod(osh))).reshape(osh), _COMMENSURABLE.get(ua, "xb"), dtype=dtype)
+        E.inplace("o", lambda: f(a, b, E.tracked["o"]), lambda: tw(a, b))
+    return Case(_cid("func", tag, f"out={dtype}_otherunit" + ("_wrongshape" if wrongshape else ""), fault or "valid", "shape" + _shape_tag(shape)), h)
+
 # in-place array functions: (tag, f(a, b) mutating a, expected numbers oracle(old a values, b values), unit a, unit b, shape, fault)
 FUNCS_INPLACE = [
     ("a.sort", lambda a, b: a.sort(), lambda a, b: np.sort(a), None, "xa", None, (2,), None),
@@ -894,8 +949,8 @@ def func_out_case(tag, f, tw, ua, ub, shape, oshape, fault, outform):
                 return
             E.inplace("a", lambda: f(a, b, a), lambda: tw(a, b))
             return
-        osh = (3,) if outform == "wrongshape" else oshape
-        E.view("o", {"fresh": ua, "otherunit": "xm", "wrongshape": ua, "bareout": None}[outform], osh)
+        osh = (3,) if is_wrongshape(outform) else oshape
+        E.view("o", "xm" if outform == "otherunit" else out_unit(outform, ua), osh)
         E.inplace("o", lambda: f(a, b, E.tracked["o"]), lambda: tw(a, b))
     return Case(_cid("func", tag, f"out={outform}", fault or "valid", "shape" + _shape_tag(shape)), h)
 
@@ -1152,10 +1207,10 @@ def float_ufunc_case(name, arity, nout, ua, ub, fault, outform):
                 E.concrete("o1", [0.0, 0.0], "xs")
                 keys.append("o1")
         else:
-            ounit = {"fresh": ua, "otherunit": "xs", "bareout": None, "wrongshape": ua}[outform]
+            ounit = out_unit(outform, ua)
             keys = []
             for j in range(nout):
-                E.concrete(f"o{j}", [0.0, 0.0, 0.0] if outform == "wrongshape" else [0.0, 0.0], ounit)
+                E.concrete(f"o{j}", [0.0, 0.0, 0.0] if is_wrongshape(outform) else [0.0, 0.0], ounit)
                 keys.append(f"o{j}")
         outs = tuple(E.tracked[k] for k in keys)
         E.inplace(keys, lambda: uf(*args, out=outs if nout > 1 else outs[0]), lambda: uf(*args))
@@ -1262,31 +1317,34 @@ def cases(tier, mods):
                 continue
             if of == "alias0" and ua in ("num",):
                 continue
-            if quick and fault is None and of in ("bareout", "wrongshape") and name not in ("add", "sqrt", "multiply"):
+            if quick and fault is None and of in ("bareout", "wrongshape", "wrongshape_otherdim") and name not in ("add", "sqrt", "multiply"):
                 continue
-            if quick and fault is not None and of in ("bareout", "otherunit", "wrongshape") and name not in ("add@dim", "multiply@offset"):
+            if quick and fault is not None and of in ("bareout", "otherunit", "wrongshape", "wrongshape_otherunit", "wrongshape_otherdim") and name not in ("add@dim", "multiply@offset"):
                 continue
             out.append(ufunc_case(name, arity, nout, ua, ub, kw, fault, of, (2,)))
         if not quick and arity == 2:
             out.append(ufunc_case(name, arity, nout, ua, ub, kw, fault, "none", ()))
             out.append(ufunc_case(name, arity, nout, ua, ub, kw, fault, "fresh", ()))
     for (tag, f, tw, unit, kw) in METHODS:
-        for of in ["none", "fresh", "otherunit", "wrongshape", "bareout"]:
+        for of in ["none", "fresh", "otherunit", "wrongshape", "wrongshape_otherunit", "wrongshape_otherdim", "bareout"]:
             out.append(method_case(tag, f, tw, unit, kw, of))
     # ---- reductions
     for (tag, f, has_out) in REDUCTIONS:
         for unit in ["xa", "xta"]:
-            forms = ["none"] + (["fresh", "otherunit", "wrongshape", "bareout"] if has_out else [])
+            forms = ["none"] + (["fresh", "otherunit", "wrongshape", "wrongshape_otherunit", "wrongshape_otherdim", "bareout"] if has_out else [])
             if quick and unit == "xta":
-                forms = forms[:2]
+                forms = forms[:2] + [x for x in forms if x == "wrongshape_otherunit"]
             for of in forms:
                 out.append(reduction_case(tag, f, unit, of))
     # ---- array functions
     for (tag, f, ua, ub, sh, fault) in FUNCS:
         out.append(func_case(tag, f, ua, ub, sh, fault))
     for (tag, f, tw, ua, ub, sh, osh, fault) in FUNCS_OUT:
-        for of in ["fresh", "otherunit", "wrongshape", "bareout", "alias0"]:
+        for of in ["fresh", "otherunit", "wrongshape", "wrongshape_otherunit", "wrongshape_otherdim", "bareout", "alias0"]:
             out.append(func_out_case(tag, f, tw, ua, ub, sh, osh, fault, of))
+        for dt in (["int32"] if quick else ["int32", "int64", "int8", "uint16"]):
+            out.append(func_out_typed_case(tag, f, tw, ua, ub, sh, osh, fault, dt, False))
+            out.append(func_out_typed_case(tag, f, tw, ua, ub, sh, osh, fault, dt, True))
     for (tag, f, tw, oracle, ua, ub, sh, fault) in FUNCS_INPLACE:
         out.append(func_inplace_case(tag, f, tw, oracle, ua, ub, sh, fault))
     # ---- item assignment
@@ -1344,7 +1402,7 @@ def cases(tier, mods):
                 out.append(float_pow_case(form, unit, pw))
     # ---- ufuncs NumPy has no object loop for (multi-output modf/divmod, copysign, isfinite): concrete doubles, symbolic unit scales
     for (name, arity, nout, ua, ub, fault) in FLOAT_UFUNCS:
-        for of in ["none", "fresh", "otherunit", "bareout", "wrongshape", "alias0"]:
+        for of in ["none", "fresh", "otherunit", "bareout", "wrongshape", "wrongshape_otherunit", "alias0"]:
             if quick and (name == "frexp@dim" or (name == "frexp" and of not in ("none", "fresh")) or of == "otherunit"):
                 continue
             out.append(float_ufunc_case(name, arity, nout, ua, ub, fault, of))
